@@ -409,7 +409,7 @@ func (w *World) callSSA(caller *frame, callpos token.Pos, fn *ssa.Function, args
 		}
 		if fn.Blocks == nil {
 			if fn.Pkg != nil {
-				fn.Pkg.Build()
+				buildPackage(fn.Pkg)
 			}
 			if fn.Blocks == nil {
 				if w.inInit > 0 && fn.Signature.Results().Len() == 0 {
